@@ -48,7 +48,7 @@ if [ "$GROUP" = seeded ] || [ "$GROUP" = all ]; then
   out=mutants/RESULTS-seeded$SFX.tsv; [ "$RE" = . ] && echo "# repo $head_of_repo, quick tier; name property expected verdict first-fingerprints" > $out
   for d in seeded/*/; do
     name="$(basename "$d")"; echo "$name" | grep -qE "$RE" || continue
-    prop="$(python3 -c "import json;print(json.load(open('$d/meta.json'))['property'])")"
+    prop="$(python3 -c "import json;m=json.load(open('$d/meta.json'));print(m.get('check',m['property']))")"   # 'check' overrides: a change seeded for one property may need another property's check
     run_one "$name" "$prop" "$PWD/$d/patch.diff" caught "$out"
   done
 fi
